@@ -68,6 +68,19 @@ func (m *module) checkLayout() {
 		s := moduleSection(in.Op)
 		if in.Op == opMemoryModel {
 			memModels++
+			if in.Decode == "" {
+				am, mm := in.Ops[0].Lit, in.Ops[1].Lit
+				if am != 0 && am != 1 && am != 2 && am != 5348 {
+					m.fail("L2", "%s: addressing model %d is not a known enumerant", in, am)
+				} else if m.caps[capShader] && !m.caps[capKernel] && am != 0 && am != 5348 {
+					m.fail("L2", "%s: addressing model %d; a Vulkan shader module must use Logical or PhysicalStorageBuffer64", in, am)
+				}
+				if mm > 3 {
+					m.fail("L2", "%s: memory model %d is not a known enumerant", in, mm)
+				} else if m.caps[capShader] && !m.caps[capKernel] && mm != 1 && mm != 3 {
+					m.fail("L2", "%s: memory model %d; a Vulkan shader module must use GLSL450 or Vulkan", in, mm)
+				}
+			}
 		}
 		if reported >= 8 {
 			continue
